@@ -5,6 +5,7 @@ mod lowfam;
 mod lowgen;
 mod iterfam;
 mod compfam;
+mod rtfam;
 
 fn main() {
     common::install_panic_hook();
@@ -19,6 +20,7 @@ fn main() {
         "lower-gen" => lowgen::main(&args[2..]),
         "iter" => iterfam::main(&args[2..]),
         "comp" => compfam::main(&args[2..]),
+        "rt" => rtfam::main(&args[2..]),
         f => {
             eprintln!("unknown family {}", f);
             std::process::exit(2);
